@@ -158,6 +158,7 @@ type nativeVect struct {
 	*vexec.Vector
 	Harness string `json:"harness"`
 	Prop    string `json:"prop"`
+	Tier    int    `json:"tier"` // the tier the vector was produced under (bounds depend on it)
 }
 
 type nativeResult struct {
@@ -376,7 +377,7 @@ func check(prop string, args []string) int {
 			models[m] = true
 		}
 		for _, v := range ex.Vectors {
-			vf.Vectors = append(vf.Vectors, nativeVect{Vector: v, Harness: hn, Prop: prop})
+			vf.Vectors = append(vf.Vectors, nativeVect{Vector: v, Harness: hn, Prop: prop, Tier: tierN})
 			refs = append(refs, vecRef{hn, v})
 		}
 		fmt.Printf("harness %s: paths=%d decisions=%d unsupported=%d boundhits=%d budget_exhausted=%v wall=%.1fs\n",
@@ -611,7 +612,7 @@ func replay(prop, file string) int {
 		}
 	}
 	sort.Strings(allH)
-	vf := &vecFile{Vectors: []nativeVect{v}}
+	vf := &vecFile{Vectors: []nativeVect{v}, Tier: v.Tier}
 	for _, f := range loadFindings() {
 		if f.Status == "known" {
 			vf.Known = append(vf.Known, f.ID)
